@@ -6,6 +6,7 @@ import common as C
 import engine_common as E
 
 VFILES = ["props/C12.v"]
+USES_TRANSLATOR = True     # the loader clause is about the library route on the meta-grammar translated from parser.py
 ASSUMPTIONS = ["termination is proved for the model; interpreter stack depth and running time are runtime behaviour the model cannot exhibit (see known findings)"]
 CLASSES = {"exc", "build", "hang"}
 
